@@ -215,6 +215,15 @@ def _monte_carlo(ck, repo, nf):
     ck.need(len(bp) == 2, f"{q}: fori_loop body must take (i, state)")
     i, st = bp
     env = {i: Poly.atom(i, {i}, {i}), st: Poly.atom(st, {st}, {st})}
+    # closure variables of the loop body: single top-level assignments of the enclosing function (ep_len = rewards.shape[0], ...)
+    ocfg = nf.cfg_of(fn)
+    osc = Scope(ocfg, mi, {p_: Poly.atom(p_, {p_}, {p_}) for p_ in param_names(fn)}, q)
+    local_stores = {x.id for x in ast.walk(body) if isinstance(x, ast.Name) and isinstance(x.ctx, ast.Store)} | set(bp)
+    for top in fn.body:
+        if isinstance(top, ast.Assign) and len(top.targets) == 1 and isinstance(top.targets[0], ast.Name) and top.targets[0].id not in local_stores:
+            nm = top.targets[0].id
+            if sum(1 for x in ast.walk(fn) if isinstance(x, ast.Name) and x.id == nm and isinstance(x.ctx, ast.Store)) == 1:
+                env[nm] = nf.poly(top.value, osc, ocfg.stmt_node[id(top)])
     sc = Scope(cfg, mi, env, q + ".<locals>." + body.name)
     rets = [n for n in cfg.nodes if n.kind == "stmt" and isinstance(n.ast, ast.Return)]
     ck.need(len(rets) == 1, f"{q}: body has {len(rets)} returns")
@@ -228,7 +237,7 @@ def _monte_carlo(ck, repo, nf):
             return
         raise AnalysisError(f"{q}: loop state arity {len(rp.elems)} (unrecognised idiom)")
     ssc = Scope(None, mi, env, q)
-    idx = f"ep_len - 1 - {i}"
+    idx = f"rewards.shape[0] - 1 - {i}"
     o, a, r = f"observations[{idx}]", f"actions[{idx}]", f"rewards[{idx}]"
     G = f"({r} + gamma * {st}[2])"
     N = f"{st}[1].at[{o}, {a}].add(1)"
